@@ -2,3 +2,6 @@
 #include "ir2c_rt.h"
 #include <stdlib.h>
 u8 *env_alloc(u64 n) { u8 *p = malloc(n ? n : 1); if (!p) abort(); return p; }
+/* defaults for harness-served callbacks of the real build (overridden by harnesses that define them) */
+__attribute__((weak)) u32 vf_stub_read(u8 *block) { (void)block; return 0; }
+__attribute__((weak)) void wencry_verif_round(int alg, unsigned round, unsigned *state) { (void)alg; (void)round; (void)state; }
